@@ -6,10 +6,11 @@ set -u
 id=$1; patch=$2; tier=${3:-quick}; shift; shift; shift || true
 wt=$(mktemp -d /tmp/st-$id-XXXX)
 rmdir $wt
-git -C /repo worktree add --detach $wt >/dev/null 2>&1 || { echo "worktree failed"; exit 3; }
+git -C /repo worktree add --detach $wt ${SEED_BASE:-HEAD} >/dev/null 2>&1 || { echo "worktree failed"; exit 3; }
 if ! git -C $wt apply $patch; then echo "PATCH DOES NOT APPLY"; git -C /repo worktree remove --force $wt; exit 3; fi
 export VERIF_REPO=$wt
-cp /verif/bin/vcheck $wt/.vcheck
+export VERIF_ROOT=${VERIF_SNAP:-/verif}
+cp $VERIF_ROOT/bin/vcheck $wt/.vcheck
 out=$(mktemp /tmp/st-out-XXXX)
 VERIF_EVIDENCE_DIR=$wt/.ev $wt/.vcheck run $id --tier $tier "$@" > $out 2>&1
 rc=$?
